@@ -153,9 +153,9 @@ class State:
         self.wrote = self.wrote | {key}
         # the abstract truth value of conditions is a function of the heap: a new heap has a new (unknown) one
         tk = "Condition.$truth"
-        if key != tk and tk in self.heap:
-            from .core import fresh
-            self.heap[tk] = fresh("Hw!truth", self.heap[tk].sort())
+        if key != tk:
+            # (also when it has not been looked at yet: a later look must not resolve to the array of the heap before)
+            self.heap[tk] = fresh("Hw!truth", z3.ArraySort(RefS, z3.BoolSort()))
 
 
 class HeapSpace:
